@@ -42,7 +42,7 @@ class SimOverrun(BaseException):
 class Baton:
     def __init__(self, nthreads, pkg_prefix, rng=None, p_switch=0.0,
                  table=None, cancel_plan=None, max_events=400_000,
-                 burst=True, record_sites=None):
+                 burst=True, record_sites=None, opcodes=False):
         self.n = nthreads
         self.pkg = pkg_prefix
         self.rng = rng
@@ -77,8 +77,10 @@ class Baton:
         self.window_hits = {}
         self.cancel_sites = []
         self._code_ids = {}
-        self.record_sites = record_sites    # (thread, op) whose line sites are recorded
-        self.sites = {}                     # (code id, line) -> [first k, last k, count, name]
+        # [(thread, op), ...] whose sites are recorded: (t, op) -> {(code id, line): [first k, last k, count, name]}
+        self.record_sites = set(tuple(x) for x in record_sites) if record_sites else None
+        self.sites = {}
+        self.opcodes = opcodes              # pre-empt at bytecode instead of line granularity
         self._next_switch = None
         if rng is not None and self.p > 0:
             self._next_switch = self._gap()
@@ -98,6 +100,8 @@ class Baton:
         code = frame.f_code
         if not code.co_filename.startswith(self.pkg):
             return None
+        if self.opcodes:
+            frame.f_trace_opcodes = True
         if self.use_burst and code.co_name in WINDOW_NAMES:
             me = self.current
             key = (me, code.co_name)
@@ -108,8 +112,11 @@ class Baton:
         return self.ltrace
 
     def ltrace(self, frame, event, arg):
-        if event == "line":
-            self.on_line(frame)
+        if self.opcodes:
+            if event == "opcode":
+                self.on_line(frame, frame.f_lasti)
+        elif event == "line":
+            self.on_line(frame, frame.f_lineno)
         return self.ltrace
 
     def _code_id(self, code):
@@ -120,21 +127,22 @@ class Baton:
             self._code_ids[code] = cid
         return cid
 
-    def on_line(self, frame):
+    def on_line(self, frame, where):
         me = self.current
         self.events += 1
         self.op_events[me] += 1
         self.thread_events[me] += 1
         k = self.op_events[me]
-        self.h = ((self.h * 1099511628211) ^ (self._code_id(frame.f_code) * 31 + frame.f_lineno * 7 + me)) & _MASK
+        self.h = ((self.h * 1099511628211) ^ (self._code_id(frame.f_code) * 31 + where * 7 + me)) & _MASK
         if self.events > self.max_events:
             raise SimOverrun()
         rs = self.record_sites
-        if rs is not None and rs[0] == me and rs[1] == self.op_index[me]:
-            key = (self._code_id(frame.f_code), frame.f_lineno)
-            ent = self.sites.get(key)
+        if rs is not None and (me, self.op_index[me]) in rs:
+            tab = self.sites.setdefault((me, self.op_index[me]), {})
+            key = (self._code_id(frame.f_code), where)
+            ent = tab.get(key)
             if ent is None:
-                self.sites[key] = [k, k, 1, frame.f_code.co_name]
+                tab[key] = [k, k, 1, frame.f_code.co_name]
             else:
                 ent[1] = k
                 ent[2] += 1
